@@ -59,6 +59,9 @@ void gen_plan() {
                 else { o.k = OP_WAIT; o.m = equal_demand ? eq_m : 1 + sim::rnd(4); o.mode = sim::rnd(4); o.timeout_us = sim::rnd(8) == 0 ? 0 : T_US[sim::rnd(9)]; }
             } else if (role[t] == R_SIGNALLER) {
                 if (sim::rnd(3) == 0) { o.k = OP_PAUSE; o.pause_us = sim::rnd(3) ? T_US[sim::rnd(8)] : 0; }
+                // a signaller that also takes tokens itself: its wait() does not queue when the count covers it, i.e. it may take
+                // the tokens of waiters that its own signal() has just resumed but that have not run yet
+                else if (i > 0 && sim::rnd(5) == 0) { o.k = OP_WAIT; o.m = 1 + sim::rnd(3); o.mode = sim::rnd(2) ? 1 : 3; o.timeout_us = T_US[sim::rnd(5)]; }
                 else { o.k = OP_SIGNAL; o.m = 1 + sim::rnd(equal_demand ? eq_m * 2 : 5); }
             } else {
                 static const int EN[] = {EINTR, ECANCELED, EAGAIN, EIO};
